@@ -377,7 +377,7 @@ Inductive iop :=
 | OpObserve                                  (* QPDFWriter::write (default configuration): no effect on the modelled state *)
 | OpJson.                                    (* QPDF::writeJSON: getAllObjects() re-labels every cached object with its key *)
 
-Inductive ires := ROk | RSkip | RLogic.
+Inductive ires := IrOk | IrSkip | IrLogic.
 
 (* QPDFObjectHandle::checkOwnership / Array::checkOwnership *)
 Definition own_clash (w : world) (h v : iloc) : bool :=
@@ -487,46 +487,46 @@ Definition json_unwritable (w : world) (cache : list (N * iloc)) : bool :=
 
 Definition step (sh : bool) (a : nat) (w : world) (op : iop) : world * ires :=
   match op with
-  | OpNewDoc => if Nat.eqb a (length (w_docs w)) then (mkWorld (w_stat w) (w_docs w ++ [new_docv a]), ROk) else (w, RSkip)
+  | OpNewDoc => if Nat.eqb a (length (w_docs w)) then (mkWorld (w_stat w) (w_docs w ++ [new_docv a]), IrOk) else (w, IrSkip)
   | OpParse r toks =>
     if alive w a && root_ok a r then
       match parse_obj sh (Some a) a w toks with
-      | Some (w1, l) => (set_root w1 a r l, ROk)
-      | None => (w, RSkip)
+      | Some (w1, l) => (set_root w1 a r l, IrOk)
+      | None => (w, IrSkip)
       end
-    else (w, RSkip)
+    else (w, IrSkip)
   | OpHold r h =>
     if root_ok a r then
-      match eval_hx sh a w h with Some (w1, l) => (set_root w1 a r l, ROk) | None => (w, RSkip) end
-    else (w, RSkip)
+      match eval_hx sh a w h with Some (w1, l) => (set_root w1 a r l, IrOk) | None => (w, IrSkip) end
+    else (w, IrSkip)
   | OpMakeInd h =>
     if alive w a then
       match eval_hx sh a w h with
       | Some (w1, l) =>
         let next := objcount w1 a + 1 in
         let w2 := set_cache w1 a next l in
-        (match hget w2 l with Some c => hset w2 l (mkCell (c_val c) (Some a) next) | None => w2 end, ROk)
-      | None => (w, RSkip)
+        (match hget w2 l with Some c => hset w2 l (mkCell (c_val c) (Some a) next) | None => w2 end, IrOk)
+      | None => (w, IrSkip)
       end
-    else (w, RSkip)
+    else (w, IrSkip)
   | OpReplaceKey h k v =>
     match eval_hx sh a w h with
     | Some (w1, lh) =>
       if is_dict_h w1 lh then
         match eval_vx sh a w1 v with
         | Some (w2, lv) =>
-          if own_clash w2 lh lv then (w2, RLogic) else
+          if own_clash w2 lh lv then (w2, IrLogic) else
           let t := target w2 lh in
           match cval w2 t with
           | HDict items =>
-            if is_null_h w2 lv && (cog w2 lv =? 0) then (set_val w2 t (HDict (nmap_del items k)), ROk)
-            else (set_val w2 t (HDict (nmap_set items k lv)), ROk)
-          | _ => (w2, ROk)
+            if is_null_h w2 lv && (cog w2 lv =? 0) then (set_val w2 t (HDict (nmap_del items k)), IrOk)
+            else (set_val w2 t (HDict (nmap_set items k lv)), IrOk)
+          | _ => (w2, IrOk)
           end
-        | None => (w, RSkip)
+        | None => (w, IrSkip)
         end
-      else (w, RSkip)
-    | None => (w, RSkip)
+      else (w, IrSkip)
+    | None => (w, IrSkip)
     end
   | OpRemoveKey h k =>
     match eval_hx sh a w h with
@@ -534,11 +534,11 @@ Definition step (sh : bool) (a : nat) (w : world) (op : iop) : world * ires :=
       if is_dict_h w1 lh then
         let t := target w1 lh in
         match cval w1 t with
-        | HDict items => (set_val w1 t (HDict (nmap_del items k)), ROk)
-        | _ => (w1, ROk)
+        | HDict items => (set_val w1 t (HDict (nmap_del items k)), IrOk)
+        | _ => (w1, IrOk)
         end
-      else (w, RSkip)
-    | None => (w, RSkip)
+      else (w, IrSkip)
+    | None => (w, IrSkip)
     end
   | OpAppend h v =>
     match eval_hx sh a w h with
@@ -546,17 +546,17 @@ Definition step (sh : bool) (a : nat) (w : world) (op : iop) : world * ires :=
       if is_arr_h w1 lh then
         match eval_vx sh a w1 v with
         | Some (w2, lv) =>
-          if own_clash w2 lh lv then (w2, RLogic) else
+          if own_clash w2 lh lv then (w2, IrLogic) else
           let t := target w2 lh in
           match cval w2 t with
-          | HArr els => (set_val w2 t (HArr (els ++ [lv])), ROk)
-          | HSparse sz els => (set_val w2 t (HSparse (S sz) (imap_set els sz lv)), ROk)
-          | _ => (w2, ROk)
+          | HArr els => (set_val w2 t (HArr (els ++ [lv])), IrOk)
+          | HSparse sz els => (set_val w2 t (HSparse (S sz) (imap_set els sz lv)), IrOk)
+          | _ => (w2, IrOk)
           end
-        | None => (w, RSkip)
+        | None => (w, IrSkip)
         end
-      else (w, RSkip)
-    | None => (w, RSkip)
+      else (w, IrSkip)
+    | None => (w, IrSkip)
     end
   | OpSetItem h n v =>
     match eval_hx sh a w h with
@@ -564,17 +564,17 @@ Definition step (sh : bool) (a : nat) (w : world) (op : iop) : world * ires :=
       if is_arr_h w1 lh && Nat.ltb n (arr_size w1 lh) then
         match eval_vx sh a w1 v with
         | Some (w2, lv) =>
-          if own_clash w2 lh lv then (w2, RLogic) else
+          if own_clash w2 lh lv then (w2, IrLogic) else
           let t := target w2 lh in
           match cval w2 t with
-          | HArr els => (set_val w2 t (HArr (set_nth els n lv)), ROk)
-          | HSparse sz els => (set_val w2 t (HSparse sz (imap_set els n lv)), ROk)
-          | _ => (w2, ROk)
+          | HArr els => (set_val w2 t (HArr (set_nth els n lv)), IrOk)
+          | HSparse sz els => (set_val w2 t (HSparse sz (imap_set els n lv)), IrOk)
+          | _ => (w2, IrOk)
           end
-        | None => (w, RSkip)
+        | None => (w, IrSkip)
         end
-      else (w, RSkip)
-    | None => (w, RSkip)
+      else (w, IrSkip)
+    | None => (w, IrSkip)
     end
   | OpErase h n =>
     match eval_hx sh a w h with
@@ -582,18 +582,18 @@ Definition step (sh : bool) (a : nat) (w : world) (op : iop) : world * ires :=
       if is_arr_h w1 lh && Nat.ltb n (arr_size w1 lh) then
         let t := target w1 lh in
         match cval w1 t with
-        | HArr els => (set_val w1 t (HArr (remove_nth els n)), ROk)
-        | HSparse sz els => (set_val w1 t (HSparse (pred sz) (imap_erase_shift els n)), ROk)
-        | _ => (w1, ROk)
+        | HArr els => (set_val w1 t (HArr (remove_nth els n)), IrOk)
+        | HSparse sz els => (set_val w1 t (HSparse (pred sz) (imap_erase_shift els n)), IrOk)
+        | _ => (w1, IrOk)
         end
-      else (w, RSkip)
-    | None => (w, RSkip)
+      else (w, IrSkip)
+    | None => (w, IrSkip)
     end
   | OpReplaceObj id v =>
     if alive w a && (3 <=? id) && (id <=? objcount w a) then
       match eval_hx sh a w v with
       | Some (w1, lv) =>
-        if negb (cog w1 lv =? 0) then (w, RSkip) else
+        if negb (cog w1 lv =? 0) then (w, IrSkip) else
         (* Objects::updateCache: object->setObjGen(&qpdf, og); cached ? object->move_to(cache.object, false) : insert *)
         let w2 := match hget w1 lv with Some c => hset w1 lv (mkCell (c_val c) (Some a) id) | None => w1 end in
         match dv_get w2 a with
@@ -601,27 +601,27 @@ Definition step (sh : bool) (a : nat) (w : world) (op : iop) : world * ires :=
           match nmap_get (dv_cache dv) id with
           | Some lc =>
             let w3 := hset w2 lc (mkCell (cval w2 lv) (Some a) id) in
-            (set_val w3 lv (HRef lc), ROk)
-          | None => (set_cache w2 a id lv, ROk)
+            (set_val w3 lv (HRef lc), IrOk)
+          | None => (set_cache w2 a id lv, IrOk)
           end
-        | None => (w2, ROk)
+        | None => (w2, IrOk)
         end
-      | None => (w, RSkip)
+      | None => (w, IrSkip)
       end
-    else (w, RSkip)
+    else (w, IrSkip)
   | OpDestroy =>
     match dv_get w a with
     | Some dv =>
       if dv_alive dv then
         let w1 := fold_left (fun wa e => destroy_entry wa (snd e)) (dv_cache dv) w in
         match dv_get w1 a with
-        | Some dv1 => (set_dv w1 a (mkDocv (dv_cells dv1) [] false (dv_roots dv1)), ROk)
-        | None => (w1, ROk)
+        | Some dv1 => (set_dv w1 a (mkDocv (dv_cells dv1) [] false (dv_roots dv1)), IrOk)
+        | None => (w1, IrOk)
         end
-      else (w, RSkip)
-    | None => (w, RSkip)
+      else (w, IrSkip)
+    | None => (w, IrSkip)
     end
-  | OpObserve => if alive w a then (w, ROk) else (w, RSkip)
+  | OpObserve => if alive w a then (w, IrOk) else (w, IrSkip)
   | OpJson =>
     match dv_get w a with
     | Some dv =>
@@ -632,9 +632,9 @@ Definition step (sh : bool) (a : nat) (w : world) (op : iop) : world * ires :=
                                          | None => wa
                                          end) (dv_cache dv) w in
         (* ... then every object is written; a destroyed / reserved object cannot be (std::logic_error) *)
-        (w1, if json_unwritable w1 (dv_cache dv) then RLogic else ROk)
-      else (w, RSkip)
-    | None => (w, RSkip)
+        (w1, if json_unwritable w1 (dv_cache dv) then IrLogic else IrOk)
+      else (w, IrSkip)
+    | None => (w, IrSkip)
     end
   end.
 
